@@ -104,6 +104,9 @@ Fixpoint upper_ascii (s : string) : option string :=
 Definition is_kw (kw : string) (t : token) : bool :=
   utf8_valid t && match upper_ascii t with Some u => String.eqb u kw | None => false end.
 
+(* bytes -> string (used to write test tokens) *)
+Definition str_of_bytes (l : list N) : string := fold_right (fun b s => String (ascii_of_N b) s) EmptyString l.
+
 (* ------------------------------------------------------------------ numbers: Rust's <uN>::from_str *)
 Definition is_digit (c : ascii) : bool := inr 48 57 (nb c).
 Fixpoint digits_val (s : string) (acc : N) : option N :=
@@ -462,6 +465,20 @@ Section WithUuidOracle.
   Definition epseq_p : parser psel := partition_selector.
   Definition eack_p : parser (uuid * N) := pseq uuid_p number_u64.
 End WithUuidOracle.
+
+(* ------------------------------------------------------------------ history: ESUB as it was before the `fix:` commits
+   (esub.rs at 5c0d3d9: the stream list accepts any stream id, the MAP pairs are not wrapped in `attempt`).
+   Kept only for the theorem that records the original defect. *)
+Definition esub_item_orig (uo : string -> option uuid) : parser (string * option uuid) :=
+  pseq stream_id (optional (pk_clause uo)).
+Definition from_versions_orig : parser fv_arg :=
+  pwith (keyword "FROM")
+    (por (pmap (fun _ => FvLatest) (keyword "LATEST"))
+    (por (pmap FvAll number_u64)
+         (pmap FvMap (pwith (keyword "MAP") (many1 stream_id_version))))).
+Definition esub_raw_orig (uo : string -> option uuid) : parser esub_ast :=
+  pmap (fun x => {| es_streams := fst x; es_from := fst (snd x); es_window := snd (snd x) |})
+    (pseq (many1 (esub_item_orig uo)) (pseq (optional from_versions_orig) (optional window))).
 
 (* ------------------------------------------------------------------ resolution of the subscription syntax trees
    (the `.map(|(selector, from, window)| ...)` closures of ESub::parser / EPSub::parser).
